@@ -84,6 +84,16 @@ class FnTrans:
             self.counter[mn] = max(self.counter.get(mn, 0), 1)      # later assignments get fresh names (no shadowing)
             self.params.append((mn, ln, lt, "state"))
             self.defaults.append(None)
+        # `this` as ONE struct-typed value (job["this_struct"] = (lean name, lean struct type, {C++ member: (lean field, type)})):
+        # member writes become struct updates, method calls receive the CURRENT value, a mutating method returns it
+        self.tstruct = job.get("this_struct")
+        if self.tstruct and decl.get("kind") == "CXXMethodDecl":
+            body0 = [c for c in decl["inner"] if c.get("kind") == "CompoundStmt"][0]
+            is_const = decl["type"]["qualType"].rstrip().endswith("const")
+            mutates = (not is_const) and self.mutates_this(body0)
+            self.params.append(("this", self.tstruct[0], self.tstruct[1], "state" if mutates else "val"))
+            self.defaults.append(None)
+            self.counter[self.tstruct[0]] = 1
         self.ret_qt = decl["type"]["qualType"].split("(")[0].strip()
         self.ret_type = None if self.ret_qt == "void" else self.lean_type(self.ret_qt)[0]
         self.outs = [p for p in self.params if p[3] in ("out", "state")]
@@ -108,6 +118,7 @@ class FnTrans:
         return n + "_" if n in LEAN_KEYWORDS else n
 
     def fresh(self, cname):
+        if cname == "this" and getattr(self, "tstruct", None): cname = self.tstruct[0]
         k = self.counter.get(cname, 0)
         self.counter[cname] = k + 1
         base = self.safe(cname)
@@ -118,6 +129,36 @@ class FnTrans:
         ps = [p for p in ps if p]
         if not ps: return None
         return " && ".join("(%s)" % p for p in ps)
+
+    def this_field(self, lhs):
+        """(lean field, type) if the lvalue is a member of `this` mapped by job["this_struct"], else None"""
+        if not getattr(self, "tstruct", None): return None
+        while lhs.get("kind") in ("ParenExpr", "ImplicitCastExpr"): lhs = lhs["inner"][0]
+        if lhs.get("kind") == "MemberExpr":
+            b = lhs["inner"][0]
+            while b.get("kind") == "ImplicitCastExpr": b = b["inner"][0]
+            if b.get("kind") == "CXXThisExpr" and lhs.get("name") in self.tstruct[2]:
+                return self.tstruct[2][lhs["name"]]
+        return None
+
+    def this_call(self, n):
+        """(method name, arg nodes) if n is a call `this->m(args)` of a method already translated in this job"""
+        if n.get("kind") != "CXXMemberCallExpr": return None
+        inner = [c for c in n.get("inner", []) if isinstance(c, dict)]
+        me = inner[0]
+        if me.get("kind") != "MemberExpr": return None
+        b = me["inner"][0]
+        while b.get("kind") == "ImplicitCastExpr": b = b["inner"][0]
+        if b.get("kind") == "CXXThisExpr" and me.get("name") in self.known: return me["name"], inner[1:]
+        return None
+
+    def mutates_this(self, n):
+        k = n.get("kind")
+        if k in ("BinaryOperator", "CompoundAssignOperator") and (n.get("opcode", "") == "=" or k == "CompoundAssignOperator"):
+            if self.this_field(n["inner"][0]) is not None: return True
+        tc = self.this_call(n)
+        if tc and any(p_[0] == "this" and p_[3] == "state" for p_ in self.known[tc[0]].params): return True
+        return any(self.mutates_this(c) for c in n.get("inner", []) if isinstance(c, dict))
 
     def path_of(self, n):
         """textual access path of an expression made of this / parameters / member reads / nullary member calls"""
@@ -198,6 +239,8 @@ class FnTrans:
             base = inner[0]
             if base.get("kind") == "CXXThisExpr" or (base.get("kind") == "ImplicitCastExpr" and base["inner"][0].get("kind") == "CXXThisExpr"):
                 nm = n["name"]
+                if getattr(self, "tstruct", None) and nm in self.tstruct[2] and "this" in env:
+                    return "%s.%s" % (env["this"]["lean"], self.tstruct[2][nm][0]), self.tstruct[2][nm][1], None
                 if nm in env and any(st[0] == nm for st in self.state): return env[nm]["lean"], env[nm]["type"], None
                 if nm in self.members: return self.members[nm][0], self.members[nm][1], None
                 raise Unsupported("%s: member %s of this not mapped" % (self.name, nm))
@@ -281,6 +324,28 @@ class FnTrans:
                     ln, lt = self.job["member_calls"][key]
                     return ln, lt, None
             # this->method(args): call of another translated method, passing the member parameters along
+            obj = None      # the object the method is called on, as a Lean value of the struct type
+            if getattr(self, "tstruct", None) and mname in self.known:
+                if mbase.get("kind") == "CXXThisExpr": obj = (env["this"]["lean"], None)
+                else:
+                    try:
+                        bt, bty, bp = self.expr(mbase, env)
+                        if bty == self.tstruct[1]: obj = (bt, bp)
+                    except Unsupported:
+                        obj = None
+            if obj is not None:
+                g = self.known[mname]
+                if any(p_[0] == "this" and p_[3] == "state" for p_ in g.params):
+                    raise Unsupported("%s: mutating method %s called inside an expression" % (self.name, mname))
+                args, pres, j = [], [obj[1]], 0
+                for (pc, pl, pt, pk) in g.params:
+                    if pc == "this": args.append(obj[0]); continue
+                    t2, ty2, p2 = self.expr(inner[1 + j], env); j += 1
+                    if ty2 != pt: raise Unsupported("%s: arg type %s for %s" % (self.name, ty2, mname))
+                    args.append(t2); pres.append(p2)
+                args += [ln for ln, lt in g.this_params]
+                call = "(%s %s)" % (mname, " ".join(args))
+                return call, g.ret_type, self.conj(*pres, "%s_pre %s" % (mname, " ".join(args)))
             if mbase.get("kind") == "CXXThisExpr" and mname in self.known:
                 g = self.known[mname]
                 args, pres = [], []
@@ -358,7 +423,9 @@ class FnTrans:
         if lhs.get("kind") == "MemberExpr":
             b = lhs["inner"][0]
             while b.get("kind") == "ImplicitCastExpr": b = b["inner"][0]
-            if b.get("kind") == "CXXThisExpr": return lhs.get("name")
+            if b.get("kind") == "CXXThisExpr":
+                if getattr(self, "tstruct", None) and lhs.get("name") in self.tstruct[2]: return "this"
+                return lhs.get("name")
         return None
 
     def is_swap(self, n):
@@ -459,6 +526,13 @@ class FnTrans:
                 elif op == "&" and env[cn]["type"] == "Bool": t = "(%s && %s)" % (cur, t)
                 else: raise Unsupported("%s: compound op %s" % (self.name, s["opcode"]))
                 ty = env[cn]["type"]
+            tf = self.this_field(s["inner"][0])
+            if tf is not None:
+                # member write: the compound-assignment operand was computed from the member, not from the struct
+                if k == "CompoundAssignOperator": raise Unsupported("%s: compound assignment to a member of struct-this" % self.name)
+                if ty != tf[1]: raise Unsupported("%s: assign %s to member of type %s" % (self.name, ty, tf[1]))
+                t = "{ %s with %s := %s }" % (env["this"]["lean"], tf[0], t)
+                ty = env["this"]["type"]
             if ty != env[cn]["type"]: raise Unsupported("%s: assign %s to %s" % (self.name, ty, env[cn]["type"]))
             env = dict(env)
             ln = self.fresh(cn)
@@ -476,6 +550,27 @@ class FnTrans:
             env[a] = dict(lean=na, type=env[a]["type"]); env[b] = dict(lean=nb, type=env[b]["type"])
             v, pp = nxt(env)
             return head + v, head + pp
+        tc = self.this_call(s) if getattr(self, "tstruct", None) else None
+        if tc is not None:
+            g = self.known[tc[0]]
+            gmut = any(p_[0] == "this" and p_[3] == "state" for p_ in g.params)
+            if gmut:
+                if g.ret_type is not None or [o[0] for o in g.outs] != ["this"]:
+                    raise Unsupported("%s: statement call of %s with results other than this" % (self.name, tc[0]))
+                args, pres, j = [], [], 0
+                for (pc, pl, pt, pk) in g.params:
+                    if pc == "this": args.append(env["this"]["lean"]); continue
+                    t2, ty2, p2 = self.expr(tc[1][j], env); j += 1
+                    if ty2 != pt: raise Unsupported("%s: arg type %s for %s" % (self.name, ty2, tc[0]))
+                    args.append(t2); pres.append(p2)
+                args += [ln_ for ln_, lt_ in g.this_params]
+                env = dict(env)
+                ln = self.fresh("this")
+                env["this"] = dict(lean=ln, type=self.tstruct[1])
+                v, pp = nxt(env)
+                head = "let %s : %s := (%s %s)\n%s" % (ln, self.tstruct[1], tc[0], " ".join(args), pad)
+                pc_ = self.conj(*pres, "%s_pre %s" % (tc[0], " ".join(args)))
+                return head + v, "(%s) &&\n%s" % (pc_, pad) + head + pp
         if k == "BreakStmt":
             if getattr(self, "_breakcont", None) is None: raise Unsupported("%s: break outside switch" % self.name)
             return self._breakcont(env)
